@@ -50,6 +50,17 @@ Proof.
         inversion H; subst. eapply O_fire; eassumption.
 Qed.
 
+(* a delivery whose classification either lacks QRC or finds it already executed does not log QRC *)
+Lemma no_qrc_out : forall p s m o s' outs,
+  fstep p s (ERecv m CmpOk) o = Some (s', outs) ->
+  (existsb (rule_eqb QRC) (rules_of p (s1_of p s m) m) = true -> is_dup s QRC (rnd (main m)) = true) ->
+  forall outs', outs <> Upon QRC :: outs'.
+Proof.
+  intros p s m o s' outs H Hq outs' E. apply fstep_outcome in H. destruct H as [_ [_ H]].
+  destruct H as [Hd|rs Hd Ht|Hd Hj|Hd Hj Hex|rl o' s'' outs'' Hd Hj Hex Hdup Ha]; try discriminate.
+  inversion E; subst. specialize (Hq Hex). unfold s1_of in Hdup. unfold is_dup in *. simpl in Hdup. congruence.
+Qed.
+
 (* ------------------------------------------------------------------------------------------ *)
 (* dedup                                                                                       *)
 
@@ -484,7 +495,7 @@ Qed.
 
 Lemma proc_step : forall P i s m o s' outs, pool_ok ld r P -> In m P -> proc_ok P i s ->
   fstep (pp i) s (ERecv m CmpOk) o = Some (s', outs) ->
-  (existsb (rule_eqb QRC) (rules_of (pp i) (s1_of (pp i) s m) m) = true -> is_dup s QRC (rnd (main m)) = true) ->
+  (forall outs', outs <> Upon QRC :: outs') ->
   step_post P i s s' outs.
 Proof.
   intros P i s m o s' outs Hp Hm Hs H Hnq.
@@ -508,7 +519,7 @@ Proof.
       * apply proc_ok_mark; try discriminate. apply proc_ok_s1; auto.
       * unfold decided. autorewrite with st. reflexivity.
     + destruct Hr as [_ Hr]. simpl in Hr. lia.
-    + specialize (Hnq Hex). rewrite is_dup_s1 in Hdup. congruence.
+    + exfalso. eapply Hnq. reflexivity.
     + pose proof (po_dec _ _ _ Hp m Hm Hr) as Er.
       apply fire_jd in Ha; [|autorewrite with st; simpl; lia]. destruct Ha as [-> ->].
       apply post_jd; auto.
@@ -653,7 +664,7 @@ Ltac fld := simpl; repeat (progress (autorewrite with st; simpl)).
 Lemma seen_step : forall P i s0 s S m o s' outs,
   pool_ok ld r P -> In m P -> proc_ok P i s -> seen_ok i s0 s S ->
   fstep (pp i) s (ERecv m CmpOk) o = Some (s', outs) ->
-  (existsb (rule_eqb QRC) (rules_of (pp i) (s1_of (pp i) s m) m) = true -> is_dup s QRC (rnd (main m)) = true) ->
+  (forall outs', outs <> Upon QRC :: outs') ->
   qlen (buffer s0) (src (main m)) + length (filter (from_src (src (main m))) (S ++ [m])) <= fifo_ ->
   seen_ok i s0 s' (S ++ [m]).
 Proof.
@@ -690,7 +701,7 @@ Proof.
       eapply seen_buffered; eauto; fld; auto; try congruence.
       intros rl k Hk. dupsimp. rewrite Hk, !orb_true_r. reflexivity.
     + destruct Hr as [_ Hr]. simpl in Hr. lia.
-    + specialize (Hnq Hex). rewrite is_dup_s1 in Hdup. congruence.
+    + exfalso. eapply Hnq. reflexivity.
     + apply fire_jd in Ha; [|autorewrite with st; simpl; pose proof (po_dec _ _ _ Hp m Hm Hr); lia].
       destruct Ha as [-> _].
       pose proof (quorum_pos n Hn) as Hq1.
@@ -704,7 +715,7 @@ Qed.
 
 Lemma proc_step_types : forall P i s m o s' outs, pool_ok ld r P -> In m P -> proc_ok P i s ->
   fstep (pp i) s (ERecv m CmpOk) o = Some (s', outs) ->
-  (existsb (rule_eqb QRC) (rules_of (pp i) (s1_of (pp i) s m) m) = true -> is_dup s QRC (rnd (main m)) = true) ->
+  (forall outs', outs <> Upon QRC :: outs') ->
   forall m', In m' (bcasts outs) -> ty (main m') = Prepare \/ ty (main m') = Commit \/ ty (main m') = Decided.
 Proof.
   intros P i s m o s' outs Hp Hm Hs H Hnq.
@@ -725,7 +736,7 @@ Proof.
       apply fire_qc in Ha; [|autorewrite with st; simpl; lia]. destruct Ha as [_ [_ ->]]. intros m' [].
     + apply fire_urc in Ha. destruct Ha as [_ ->]. intros m' [].
     + destruct Hr as [_ Hr]. simpl in Hr. lia.
-    + specialize (Hnq Hex). rewrite is_dup_s1 in Hdup. congruence.
+    + exfalso. eapply Hnq. reflexivity.
     + apply fire_jd in Ha; [|autorewrite with st; simpl; pose proof (po_dec _ _ _ Hp m Hm Hr); lia].
       destruct Ha as [_ ->]. intros m' [].
 Qed.
@@ -758,7 +769,7 @@ Lemma ginv_deliver : forall g0 g i m o s' outs,
   ginv g0 g -> (forall j, In j R -> decided (gst g0 j) = false) ->
   In i R -> In m (pool g) ->
   fstep (pp i) (gst g i) (ERecv m CmpOk) o = Some (s', outs) ->
-  (existsb (rule_eqb QRC) (rules_of (pp i) (s1_of (pp i) (gst g i) m) m) = true -> is_dup (gst g i) QRC (rnd (main m)) = true) ->
+  (forall outs', outs <> Upon QRC :: outs') ->
   qlen (buffer (gst g0 i)) (src (main m)) + length (filter (from_src (src (main m))) (seen g i ++ [m])) <= fifo_ ->
   ginv g0 (mkg (upd (gst g) i s') (pool g ++ bcasts outs) (upd (seen g) i (seen g i ++ [m])) (gdecs g ++ decides i outs)).
 Proof.
@@ -874,9 +885,9 @@ Proof.
   - pose proof (fifo_ok_step _ _ _ Hst Hf) as Hf1.
     destruct (IH Hf1 Hinv Hnorc Hund) as [I1 [I2 I3]].
     destruct Hst as [g i m o s' outs Hi Hm H].
-    assert (Hnq : existsb (rule_eqb QRC) (rules_of (pp i) (s1_of (pp i) (gst g i) m) m) = true ->
-                  is_dup (gst g i) QRC (rnd (main m)) = true).
-    { intro Hx. rewrite norc_noqrc in Hx; auto; [discriminate|]. apply (pr_round _ _ _ (gi_proc _ _ I1 i Hi)). }
+    assert (Hnq : forall outs', outs <> Upon QRC :: outs').
+    { eapply no_qrc_out; [exact H|]. intro Hx. rewrite norc_noqrc in Hx; auto; [discriminate|].
+      apply (pr_round _ _ _ (gi_proc _ _ I1 i Hi)). }
     split; [|split].
     + eapply ginv_deliver; eauto.
       specialize (Hf i (src (main m)) Hi). simpl in Hf. rewrite upd_same in Hf. exact Hf.
@@ -1000,5 +1011,44 @@ Theorem run_dedup_fact : forall p ls s, 1 <= nodes p -> run p init ls = Some s -
 Proof.
   intros p ls s Hn H. eapply (run_invariant p dedup_fact); [|apply dedup_fact_init|exact H].
   intros. eapply dedup_fact_fstep; eassumption.
+Qed.
+
+
+(* the justification cache *)
+Definition cache_fact (s : state) : Prop :=
+  (started s = false -> round s = 1) /\
+  match ppj s with PNone => True | PEmpty => round s = 1 | PQrc _ _ => is_dup s QRC (round s) = true end.
+
+Lemma cache_fact_fstep : forall p s e o s' outs, cache_fact s -> fstep p s e o = Some (s', outs) -> cache_fact s'.
+Proof.
+  intros p s e o s' outs [Hs0 Hs] H. unfold cache_fact in *. destruct e.
+  - crush_fstep H; simpl; (split; [discriminate|]); auto.
+    all: apply orb_false_iff in Heqb; destruct Heqb as [Hb _]; auto.
+  - crush_fstep H; simpl; autorewrite with st; simpl; (split; [intro Hx; apply orb_false_iff in Heqb; destruct Heqb as [Hb _]; apply orb_false_iff in Hb; destruct Hb as [Hb _]; apply negb_false_iff in Hb; congruence|]); auto.
+    all: try (match goal with E : ppj _ = _ |- _ => rewrite E in *; simpl; auto end).
+  - assert (Hst : started s = true).
+    { unfold fstep in H. destruct (negb (started s) || dead s) eqn:E; [discriminate|].
+      apply orb_false_iff in E. destruct E as [E _]. apply negb_false_iff in E. exact E. }
+    crush_fstep H; try rule_facts; simpl; autorewrite with st; simpl; (split; [intro; congruence|]); auto.
+    all: try (destruct (ppj s); repeat idp; auto; fail).
+    all: try (match goal with E : ppj _ = _ |- _ => rewrite E in *; simpl; auto end).
+    all: try (destruct Hr as [_ [Hr1 _]]; try destruct (ppj s) eqn:?; repeat idp; rewrite ?Hr1, ?Nat.eqb_refl; simpl; auto;
+              rewrite ?Hs, ?orb_true_r; auto; fail).
+  - crush_fstep H; simpl; autorewrite with st; simpl; auto.
+    split; [|exact I]. intro Hx. apply orb_false_iff in Heqb. destruct Heqb as [Hb _]. apply negb_false_iff in Hb. congruence.
+Qed.
+
+Lemma cache_fact_init : cache_fact init.
+Proof. split; [reflexivity | exact I]. Qed.
+
+(* reachable-state fact behind [leader_ok]: before the QRC rule of a round r > 1 has run, the
+   justification cache is empty *)
+Theorem run_cache_empty : forall p ls s, run p init ls = Some s ->
+  1 < round s -> is_dup s QRC (round s) = false -> ppj s = PNone.
+Proof.
+  intros p ls s H Hr Hd.
+  assert (Hc : cache_fact s).
+  { eapply (run_invariant p cache_fact); [|apply cache_fact_init|exact H]. intros. eapply cache_fact_fstep; eassumption. }
+  destruct Hc as [_ Hc]. destruct (ppj s); [reflexivity | lia | congruence].
 Qed.
 
